@@ -36,6 +36,9 @@ def configs(tier, seed):
       for mx in ((3,) if tier == 'quick' else (2, 3, 6)):
         cfgs.append(dict(name='%s/lag%d/max%s/fc1' % (st, lag, mx), strategy=st, lag=lag, max=mx, fc=True))
     cfgs.append(dict(name='%s/marathon' % st, strategy=st, lag=0, max='inf', marathon=True))
+    # daemon start-up (the scenario of C02): whatever is received while the writer thread takes its first look at the cache
+    # must come out of the strategy's drains like everything else
+    cfgs.append(dict(name='%s/startup' % st, strategy=st, lag=0, max='inf', startup=True))
   return cfgs
 
 
@@ -198,6 +201,9 @@ def run_config(cfg, res):
                                   'USE_FLOW_CONTROL': bool(cfg.get('fc'))})
   if cfg.get('marathon'):
     return run_marathon(cfg, res, ns)
+  if cfg.get('startup'):
+    from checks import c02_cache
+    return c02_cache.run_startup(cfg, res, ns)
   world = cachesim.World(ns)
   r = gen.rng(cfg['seed'], 'C17', cfg['name'])
   label = cfg['strategy']
